@@ -20,7 +20,9 @@ CLASS_OBJ: dict = {}
 TEXT: dict = {}
 PRED: dict = {}
 SCRIPTS: list = []
+MS_SCRIPTS: list = []      # scripts compiled from miniscripts (both contexts)
 VALID: dict = {}
+DEGENERATE: list = []
 NOTES: list = []
 _built = False
 
@@ -130,6 +132,7 @@ def build(seed=0, per_class=6):
                     bytes.fromhex("5221" + "02" + "11" * 32 + "21" + "03" + "22" * 32 + "52ae"),
                     bytes.fromhex("4c05" + "0102030405"), bytes.fromhex("4d0500" + "0102030405"), bytes.fromhex("4e05000000" + "0102030405"),
                     bytes.fromhex("63516751" + "68"), bytes.fromhex("20" + "aa" * 32 + "ac"), bytes.fromhex("50"), bytes.fromhex("ff")])
+    _degenerate_psbts(rng)
     for name in ("Tx", "Psbt"):
         cls = reg[name].cls
         ok = []
@@ -142,6 +145,39 @@ def build(seed=0, per_class=6):
         VALID[name] = ok[:60]
     _text_seeds(rng)
     _pred_seeds(rng)
+
+
+def _degenerate_psbts(rng):
+    """valid PSBTs (the BIP375 silent-payment ones first) whose inputs spend scripts of 0, 1 and 2 bytes, and
+    whose outputs pay to such scripts: what a consumer indexes into before it has looked at the length"""
+    from btclib.psbt import Psbt
+    from btclib.tx import TxOut
+    made = 0
+    tiny = [b"", b"\x00", b"\x51", b"\x60", b"\x6a", b"\xff", b"\x00\x00", b"\x51\x00", b"\x00\x14", b"\x51\x20", b"\x60\x01"]
+    seeds = [b for b, _ in CLASS_BIN.get("Psbt", [])]
+    with_sp, without = [], []
+    for b in seeds:
+        try:
+            p = Psbt.parse(b, check_validity=False)
+        except Exception:  # noqa: BLE001
+            continue
+        if not p.inputs:
+            continue
+        (with_sp if any(getattr(o, "sp_v0_info", None) for o in p.outputs) else without).append(b)
+    for b in with_sp[:30] + without[:12]:
+        for sc in tiny:
+            try:
+                q = Psbt.parse(b, check_validity=False)
+                i = rng.randrange(len(q.inputs))
+                q.inputs[i].witness_utxo = TxOut(rng.choice([0, 1, 100_000]), sc, check_validity=False)
+                q.inputs[i].non_witness_utxo = None
+                out = q.serialize(check_validity=False)
+            except Exception:  # noqa: BLE001
+                continue
+            CLASS_BIN.setdefault("Psbt", []).append((out, {}))
+            DEGENERATE.append(out)
+            made += 1
+    NOTES.append(f"degenerate-script psbt seeds: {made}")
 
 
 def _to_dict(o):
@@ -206,6 +242,15 @@ def _text_seeds(rng):
           "and_v(v:sha256(" + "11" * 32 + f"),pk({pub33.hex()}))", f"andor(pk({pub33.hex()}),older(10),pk({pub33b.hex()}))",
           f"t:or_c(pk({pub33.hex()}),v:after(100))", "l:older(9)", "1", "0"] + G.miniscripts_text()[:60]
     TEXT["btclib.descriptors.miniscript.parse"] = ms
+    from btclib.descriptors import miniscript as MS
+    for text in ms:
+        for c in ("P2WSH", "TAPSCRIPT"):
+            try:
+                b = MS.parse(text, c).script()
+            except Exception:  # noqa: BLE001 - not every text is valid in both contexts
+                continue
+            if isinstance(b, (bytes, bytearray)) and 0 < len(b) < 600 and b not in MS_SCRIPTS:
+                MS_SCRIPTS.append(bytes(b))
     # der paths, indexes, key origins
     paths = ["m", "m/0", "m/0h/1'/2H", "m/44h/0h/0h/0/5", "0/1", "m/2147483647h", "m/*", "m/0/*h", "/0", "m/"]
     for ep in ("btclib.bip32.der_path.indexes_from_der_path", "btclib.bip32.der_path.bytes_from_der_path",
